@@ -36,7 +36,7 @@ def run(rep, tier):
 
     with ThreadPoolExecutor(nproc) as ex:
         results = list(ex.map(drive, range(nproc)))
-    total = npen = nconv = 0
+    total = npen = nconv = nprog = nplanted = nreused = nshaken = 0
     kinds = set()
     for crashed, o, bad, acc, rejects, rs in results:
         if crashed:
@@ -45,22 +45,39 @@ def run(rep, tier):
             rep.violation("penalty driver: %s (a value on the exact lattice is not exact, or a solver threw)" % b, payload=b)
         total += acc
         for ev in rejects:
-            what = "penalty evaluation disagrees with Penalty.tla" if ev["e"] == "Pen" else "constrained solver violates the return contract"
+            what = ("penalty evaluation disagrees with Penalty.tla" if ev["e"] == "Pen" else
+                    "nano::make_function(program) disagrees with the program as stated" if ev["e"] == "Prog" else
+                    "constrained solver violates the return contract")
             rep.violation("%s: %s" % (what, str(ev)[:600]), payload=ev)
         for x in rs:
             if x["e"] == "Pen":
                 npen += 1
+                nreused += 1 if x.get("how") in ("reused", "clone") else 0
                 for c in x["cs"]:
                     kinds.add(c["kind"])
-            elif x["e"] == "Solve" and x["solver"] == "augmented-lagrangian" and x["status"] == "converged":
-                nconv += 1
-    if not rep.violations and (npen < 1000 or len(kinds) < 11 or nconv < 50):
-        raise CheckError("penalty coverage too small: %d evaluations, kinds %s, %d converged AL runs" % (npen, sorted(kinds), nconv))
+            elif x["e"] == "Prog":
+                nprog += 1
+            elif x["e"] == "Solve" and x["solver"] == "augmented-lagrangian":
+                nconv += 1 if x["status"] == "converged" else 0
+                nplanted += 1 if x.get("planted") else 0
+                nshaken += 1 if x.get("shaken") else 0
+    if not rep.violations and (npen < 1000 or len(kinds) < 11 or nconv < 50 or nprog < 100 or nplanted < 10 or nreused < 300 or nshaken < 50):
+        raise CheckError("penalty coverage too small: %d evaluations (%d on re-used / cloned objects), kinds %s, %d converged AL runs, %d converted "
+                         "programs, %d AL runs on planted empty feasible sets, %d AL runs with drawn parameters"
+                         % (npen, nreused, sorted(kinds), nconv, nprog, nplanted, nshaken))
     rep.sample([x for x in results[0][5] if x["e"] == "Pen" and x["ncons"] >= 2][0])
     rep.sample([x for x in results[0][5] if x["e"] == "Solve"][0])
-    rep.add(traces_validated_against_impl=total, penalty_evaluations=npen, constraint_kinds=sorted(kinds), converged_al_runs=nconv)
+    rep.add(traces_validated_against_impl=total, penalty_evaluations=npen, constraint_kinds=sorted(kinds), converged_al_runs=nconv,
+            evaluations_of_reused_or_cloned_objects=nreused, converted_programs=nprog, al_runs_on_empty_feasible_sets=nplanted,
+            al_runs_with_drawn_parameters=nshaken)
     rep.assume("lattice: integer points in [-4,4]^n (n<=4), integer coefficients, rho in {1,2,4,8}, integer multipliers; the AL value is "
                "compared after scaling by 2 rho; penalties up to 1e6 and non-lattice points are outside what TLC can judge",
+               "linear / quadratic programs with integer data converted by nano::make_function: objective, gradient and the constraint set "
+               "{A x - b, G x - h} (matched by kind, gradient, value) equal the driver's exact evaluation; with diagonal Q their penalty functions "
+               "are re-computed by TLC as well; the same penalty objects are evaluated again after penalty() / in-place multiplier changes / clone()",
+               "solver problems: hand-made constraint sets, no constraint at all, random convex LPs/QPs converted by nano::make_function, and planted "
+               "empty feasible sets (parallel hyperplanes, ball vs. half-space; `converged` must not be reported); outer-loop parameters (epsilon0, "
+               "epsilonK in [0.05, 1], tau, gamma, miu_max, lambda clamps, eta, penalty0) drawn in their domains in half of the runs",
                "feasibility at the returned point (|h| <= eps, max(0,g) <= eps) and bit-equality of the stored constraint values / KKT tests 1-2 "
                "are recomputed by the driver from the problem as stated")
 
